@@ -62,7 +62,8 @@ Clients == { <<<<>>, Nil>>, <<namePhone, Nil>>, <<nameFrank, Nil>>, <<<<>>, ipLa
 Tag1 == Str("t1")  Tag2 == Str("t2")  Tag3 == Str("t_3")
 TagSets == { {}, {Tag1}, {Tag2, Tag3} }
 DnsTypes == {"none", "A", "AAAA", "CNAME"}
-HostNames == { exampleOrg, subExampleOrg, notexampleOrg, ipHost }
+hexOnly   == <<Str("cafe"), Str("be")>>          \* only hexadecimal digits and dots, yet a host name
+HostNames == { exampleOrg, subExampleOrg, notexampleOrg, ipHost, hexOnly }
 
 QWeb  == { WebReq(u[1], u[2], s, t) : u \in Urls, s \in Srcs, t \in QTypes }
 QHost == { HostReq(h, dt, tg, c[1], c[2]) : h \in HostNames, dt \in DnsTypes, tg \in TagSets, c \in Clients }
